@@ -488,6 +488,9 @@ pub struct Databases {
     pub pwd: String,
     pub is_oplog_valid: Arc<AtomicBool>,
     pub hasher: std::hash::DefaultHasher,
+    /// Held from the moment a key write is applied until it is handed to the replication
+    /// channel, see process_request
+    pub replication_order: Mutex<()>,
 }
 
 impl Database {
@@ -1034,6 +1037,7 @@ impl Databases {
             is_oplog_valid: Arc::new(AtomicBool::new(is_oplog_valid)),
             pending_opps: std::sync::RwLock::new(pending_opps),
             hasher: DefaultHasher::new(),
+            replication_order: Mutex::new(()),
         };
 
         let admin_db_name = String::from(ADMIN_DB);
